@@ -1,27 +1,158 @@
-(* Proofs/GenericRefute.v — concrete witnesses (by computation) of where the
-   round trip fails on the faithful model; one lemma per guard clause. *)
+(* Proofs/GenericRefute.v — concrete witnesses (decided by computation) of where the
+   round trip fails on the faithful model: one lemma per guard clause, each with all
+   the other clauses satisfied, and non-vacuity examples for the guards.
+   The witness terms are printed by harness/c11.py's term printer from the same
+   documents the check replays on the implementation (witness_docs). *)
 From Coq Require Import NArith ZArith List Bool.
 From XV Require Import Base.Str Base.Eqb Gen.GenericTables Spec.Infoset Model.Generic.
 Import ListNotations.
 Open Scope N_scope.
 
-(* the composite the property talks about *)
-Definition roundtrip (o : oracle) (t : itree) : option itree :=
-  match tree_parse (pump o [] [] t) with
-  | Some v => itree_of_wevents (gen_any v)
-  | None => None
-  end.
-Definition roundtrip_w (o : oracle) (t : itree) : option itree :=
-  match tree_parse (pump o [] [] t) with
-  | Some v => write_tree (gen_any v)
-  | None => None
-  end.
-
-(* <r><a/>tu<b/></r> with only "t" of the tail visible at </a>'s end event *)
+(* <r><a/>tu<b/></r> *)
 Definition w_cut : itree :=
-  INode [114] [] [] [] [INode [97] [] [] [] [] [116; 117]; INode [98] [] [] [] [] []] [].
-Definition o_cut : oracle := mkOracle (fun _ => None) (fun p => match p with [O] => Some 1%nat | _ => None end).
+  (INode [114]%N (@nil (str * str)) (@nil (option str * str)) (@nil N) [(INode [97]%N (@nil (str * str)) (@nil (option str * str)) (@nil N) (@nil itree) [116;117]%N); (INode [98]%N (@nil (str * str)) (@nil (option str * str)) (@nil N) (@nil itree) (@nil N))] (@nil N)).
 
+(* <r>ab<a/>cd</r> *)
+Definition w_pi : itree :=
+  (INode [114]%N (@nil (str * str)) (@nil (option str * str)) [97;98]%N [(INode [97]%N (@nil (str * str)) (@nil (option str * str)) (@nil N) (@nil itree) [99;100]%N)] (@nil N)).
+
+(* <r xmlns:xsi="http://www.w3.org/2001/XMLSchema-instance"><a xsi:nil="true"/></r> *)
+Definition w_nil : itree :=
+  (INode [114]%N (@nil (str * str)) [((Some [120;115;105]%N), [104;116;116;112;58;47;47;119;119;119;46;119;51;46;111;114;103;47;50;48;48;49;47;88;77;76;83;99;104;101;109;97;45;105;110;115;116;97;110;99;101]%N)] (@nil N) [(INode [97]%N [([123;104;116;116;112;58;47;47;119;119;119;46;119;51;46;111;114;103;47;50;48;48;49;47;88;77;76;83;99;104;101;109;97;45;105;110;115;116;97;110;99;101;125;110;105;108]%N, [116;114;117;101]%N)] (@nil (option str * str)) (@nil N) (@nil itree) (@nil N))] (@nil N)).
+
+(* <r xmlns:p="urn:p"><a b="p:x"/></r> *)
+Definition w_rewrite : itree :=
+  (INode [114]%N (@nil (str * str)) [((Some [112]%N), [117;114;110;58;112]%N)] (@nil N) [(INode [97]%N [([98]%N, [112;58;120]%N)] (@nil (option str * str)) (@nil N) (@nil itree) (@nil N))] (@nil N)).
+
+(* <r><a b="{http://www.w3.org/2001/XMLSchema}int"/></r> *)
+Definition w_dtclark : itree :=
+  (INode [114]%N (@nil (str * str)) (@nil (option str * str)) (@nil N) [(INode [97]%N [([98]%N, [123;104;116;116;112;58;47;47;119;119;119;46;119;51;46;111;114;103;47;50;48;48;49;47;88;77;76;83;99;104;101;109;97;125;105;110;116]%N)] (@nil (option str * str)) (@nil N) (@nil itree) (@nil N))] (@nil N)).
+
+(* <r xmlns:xsi="http://www.w3.org/2001/XMLSchema-instance"><a xmlns="urn:b" xsi:type="foo"/></r> *)
+Definition w_xsitype : itree :=
+  (INode [114]%N (@nil (str * str)) [((Some [120;115;105]%N), [104;116;116;112;58;47;47;119;119;119;46;119;51;46;111;114;103;47;50;48;48;49;47;88;77;76;83;99;104;101;109;97;45;105;110;115;116;97;110;99;101]%N)] (@nil N) [(INode [123;117;114;110;58;98;125;97]%N [([123;104;116;116;112;58;47;47;119;119;119;46;119;51;46;111;114;103;47;50;48;48;49;47;88;77;76;83;99;104;101;109;97;45;105;110;115;116;97;110;99;101;125;116;121;112;101]%N, [102;111;111]%N)] [(None, [117;114;110;58;98]%N)] (@nil N) (@nil itree) (@nil N))] (@nil N)).
+
+(* <r>&#160;<a/>&#8195;</r> *)
+Definition w_space : itree :=
+  (INode [114]%N (@nil (str * str)) (@nil (option str * str)) [160]%N [(INode [97]%N (@nil (str * str)) (@nil (option str * str)) (@nil N) (@nil itree) [8195]%N)] (@nil N)).
+
+(* <R xmlns:xsi="http://www.w3.org/2001/XMLSchema-instance" xmlns:xs="http://www.w3.org/2001/XMLSchema">t<a xsi:type="xs:int" k="1"> 05 </a>u<b/></R> *)
+Definition w_prim : itree :=
+  (INode [82]%N (@nil (str * str)) [((Some [120;115]%N), [104;116;116;112;58;47;47;119;119;119;46;119;51;46;111;114;103;47;50;48;48;49;47;88;77;76;83;99;104;101;109;97]%N); ((Some [120;115;105]%N), [104;116;116;112;58;47;47;119;119;119;46;119;51;46;111;114;103;47;50;48;48;49;47;88;77;76;83;99;104;101;109;97;45;105;110;115;116;97;110;99;101]%N)] [116]%N [(INode [97]%N [([107]%N, [49]%N); ([123;104;116;116;112;58;47;47;119;119;119;46;119;51;46;111;114;103;47;50;48;48;49;47;88;77;76;83;99;104;101;109;97;45;105;110;115;116;97;110;99;101;125;116;121;112;101]%N, [120;115;58;105;110;116]%N)] (@nil (option str * str)) [32;48;53;32]%N (@nil itree) [117]%N); (INode [98]%N (@nil (str * str)) (@nil (option str * str)) (@nil N) (@nil itree) (@nil N))] (@nil N)).
+
+(* <R xmlns:xsi="http://www.w3.org/2001/XMLSchema-instance" xmlns:xs="http://www.w3.org/2001/XMLSchema"><a xsi:type="xs:int"><c/></a></R> *)
+Definition w_prim_child : itree :=
+  (INode [82]%N (@nil (str * str)) [((Some [120;115]%N), [104;116;116;112;58;47;47;119;119;119;46;119;51;46;111;114;103;47;50;48;48;49;47;88;77;76;83;99;104;101;109;97]%N); ((Some [120;115;105]%N), [104;116;116;112;58;47;47;119;119;119;46;119;51;46;111;114;103;47;50;48;48;49;47;88;77;76;83;99;104;101;109;97;45;105;110;115;116;97;110;99;101]%N)] (@nil N) [(INode [97]%N [([123;104;116;116;112;58;47;47;119;119;119;46;119;51;46;111;114;103;47;50;48;48;49;47;88;77;76;83;99;104;101;109;97;45;105;110;115;116;97;110;99;101;125;116;121;112;101]%N, [120;115;58;105;110;116]%N)] (@nil (option str * str)) (@nil N) [(INode [99]%N (@nil (str * str)) (@nil (option str * str)) (@nil N) (@nil itree) (@nil N))] (@nil N))] (@nil N)).
+
+(* <R xmlns:xsi="http://www.w3.org/2001/XMLSchema-instance" xmlns:xs="http://www.w3.org/2001/XMLSchema"><a xsi:type="xs:int">5</a></R> *)
+Definition w_prim_one : itree :=
+  (INode [82]%N (@nil (str * str)) [((Some [120;115]%N), [104;116;116;112;58;47;47;119;119;119;46;119;51;46;111;114;103;47;50;48;48;49;47;88;77;76;83;99;104;101;109;97]%N); ((Some [120;115;105]%N), [104;116;116;112;58;47;47;119;119;119;46;119;51;46;111;114;103;47;50;48;48;49;47;88;77;76;83;99;104;101;109;97;45;105;110;115;116;97;110;99;101]%N)] (@nil N) [(INode [97]%N [([123;104;116;116;112;58;47;47;119;119;119;46;119;51;46;111;114;103;47;50;48;48;49;47;88;77;76;83;99;104;101;109;97;45;105;110;115;116;97;110;99;101;125;116;121;112;101]%N, [120;115;58;105;110;116]%N)] (@nil (option str * str)) [53]%N (@nil itree) (@nil N))] (@nil N)).
+
+(* <R xmlns:xsi="http://www.w3.org/2001/XMLSchema-instance" xmlns:xs="http://www.w3.org/2001/XMLSchema" xmlns:p="urn:a">t<p:a xsi:type="xs:int" k="q:1"> 05 <c xmlns="urn:b"> </c></p:a>u<b/> 
+</R> *)
+Definition w_ok : itree :=
+  (INode [82]%N (@nil (str * str)) [((Some [112]%N), [117;114;110;58;97]%N); ((Some [120;115]%N), [104;116;116;112;58;47;47;119;119;119;46;119;51;46;111;114;103;47;50;48;48;49;47;88;77;76;83;99;104;101;109;97]%N); ((Some [120;115;105]%N), [104;116;116;112;58;47;47;119;119;119;46;119;51;46;111;114;103;47;50;48;48;49;47;88;77;76;83;99;104;101;109;97;45;105;110;115;116;97;110;99;101]%N)] [116]%N [(INode [123;117;114;110;58;97;125;97]%N [([107]%N, [113;58;49]%N); ([123;104;116;116;112;58;47;47;119;119;119;46;119;51;46;111;114;103;47;50;48;48;49;47;88;77;76;83;99;104;101;109;97;45;105;110;115;116;97;110;99;101;125;116;121;112;101]%N, [120;115;58;105;110;116]%N)] (@nil (option str * str)) [32;48;53;32]%N [(INode [123;117;114;110;58;98;125;99]%N (@nil (str * str)) [(None, [117;114;110;58;98]%N)] [32]%N (@nil itree) (@nil N))] [117]%N); (INode [98]%N (@nil (str * str)) (@nil (option str * str)) (@nil N) (@nil itree) [32;10]%N)] (@nil N)).
+
+(* <R xmlns:p="urn:a">t<p:a k="q:1"> x <c xmlns="urn:b"> </c></p:a>u<b/> 
+</R> *)
+Definition w_ok_holder : itree :=
+  (INode [82]%N (@nil (str * str)) [((Some [112]%N), [117;114;110;58;97]%N)] [116]%N [(INode [123;117;114;110;58;97;125;97]%N [([107]%N, [113;58;49]%N)] (@nil (option str * str)) [32;120;32]%N [(INode [123;117;114;110;58;98;125;99]%N (@nil (str * str)) [(None, [117;114;110;58;98]%N)] [32]%N (@nil itree) (@nil N))] [117]%N); (INode [98]%N (@nil (str * str)) (@nil (option str * str)) (@nil N) (@nil itree) [32;10]%N)] (@nil N)).
+
+(* <R xmlns:p="urn:a"> <p:a k="q:1"> x <c xmlns="urn:b"> </c></p:a>u<b/> 
+</R> *)
+Definition w_ok_choice : itree :=
+  (INode [82]%N (@nil (str * str)) [((Some [112]%N), [117;114;110;58;97]%N)] [32]%N [(INode [123;117;114;110;58;97;125;97]%N [([107]%N, [113;58;49]%N)] (@nil (option str * str)) [32;120;32]%N [(INode [123;117;114;110;58;98;125;99]%N (@nil (str * str)) [(None, [117;114;110;58;98]%N)] [32]%N (@nil itree) (@nil N))] [117]%N); (INode [98]%N (@nil (str * str)) (@nil (option str * str)) (@nil N) (@nil itree) [32;10]%N)] (@nil N)).
+
+(* <R xmlns:p="urn:a"> <p:a k="1">x<c/></p:a></R> *)
+Definition w_one : itree :=
+  (INode [82]%N (@nil (str * str)) [((Some [112]%N), [117;114;110;58;97]%N)] [32]%N [(INode [123;117;114;110;58;97;125;97]%N [([107]%N, [49]%N)] (@nil (option str * str)) [120]%N [(INode [99]%N (@nil (str * str)) (@nil (option str * str)) (@nil N) (@nil itree) (@nil N))] (@nil N))] (@nil N)).
+
+Definition cfg_single : wcfg := mkCfg [82]%N KSingle [any_ns_kw] [119]%N false (@nil str).
+Definition cfg_list : wcfg := mkCfg [82]%N KList [any_ns_kw] [119]%N false (@nil str).
+Definition cfg_mixed : wcfg := mkCfg [82]%N KMixed [any_ns_kw] [119]%N false (@nil str).
+Definition cfg_choice : wcfg := mkCfg [82]%N KChoice [any_ns_kw] [97;110;121]%N false [[107]%N].
+Definition cfg_list_amap : wcfg := mkCfg [82]%N KList [any_ns_kw] [119]%N true (@nil str).
+
+
+Definition expect (t : itree) : option itree := Some (norm_ws (canon [] t)).
+Definition expect_root (t : itree) : option itree := Some (norm_ws_root (canon [] t)).
+
+(* <r><a/>tu<b/></r> with only "t" of the tail visible at the end event of <a/> *)
+Definition o_cut : oracle := mkOracle (fun _ => None) (fun p => match p with [O] => Some 1%nat | _ => None end).
 Lemma tail_cut_refuted :
-  exists o t, guard_any [] t = true /\ roundtrip o t <> Some (norm_ws (canon [] t)).
+  exists o t, g_wf [] t && guard_any [] t && guard_write [] t = true /\ roundtrip_spec o [] [] t <> expect t.
 Proof. exists o_cut, w_cut. split; [vm_compute; reflexivity | vm_compute; discriminate]. Qed.
+
+(* <r>a<?pi?>b<a/>c<?pi?>d</r> as the lxml tree presents it: only "a" and "c" visible *)
+Definition o_pi : oracle :=
+  mkOracle (fun p => match p with [] => Some 1%nat | _ => None end) (fun p => match p with [O] => Some 1%nat | _ => None end).
+Lemma text_cut_refuted :
+  exists o t, g_wf [] t && guard_any [] t && guard_write [] t = true /\ roundtrip_spec o [] [] t <> expect t.
+Proof. exists o_pi, w_pi. split; [vm_compute; reflexivity | vm_compute; discriminate]. Qed.
+
+(* the generated events are right, the writer drops the attribute *)
+Lemma xsi_nil_dropped_refuted :
+  exists t, g_wf [] t && guard_any [] t && g_dtclark [] t = true /\
+            roundtrip_spec full_oracle [] [] t = expect t /\ roundtrip_written full_oracle [] [] t <> expect t.
+Proof. exists w_nil. split; [vm_compute; reflexivity | split; [vm_compute; reflexivity | vm_compute; discriminate]]. Qed.
+
+Lemma attr_value_rewritten_refuted :
+  exists t, g_wf [] t && g_xsitype [] t && g_space [] t && guard_write [] t = true /\
+            roundtrip_spec full_oracle [] [] t <> expect t.
+Proof. exists w_rewrite. split; [vm_compute; reflexivity | vm_compute; discriminate]. Qed.
+
+Lemma attr_datatype_clark_refuted :
+  exists t, g_wf [] t && guard_any [] t && g_nil [] t = true /\
+            roundtrip_spec full_oracle [] [] t = expect t /\ roundtrip_written full_oracle [] [] t <> expect t.
+Proof. exists w_dtclark. split; [vm_compute; reflexivity | split; [vm_compute; reflexivity | vm_compute; discriminate]]. Qed.
+
+Lemma xsi_type_default_ns_refuted :
+  exists t, g_wf [] t && g_rewrite [] t && g_space [] t && guard_write [] t = true /\
+            roundtrip_spec full_oracle [] [] t <> expect t.
+Proof. exists w_xsitype. split; [vm_compute; reflexivity | vm_compute; discriminate]. Qed.
+
+Lemma python_space_refuted :
+  exists t, g_wf [] t && g_rewrite [] t && g_xsitype [] t && guard_write [] t = true /\
+            roundtrip_spec full_oracle [] [] t <> expect t.
+Proof. exists w_space. split; [vm_compute; reflexivity | vm_compute; discriminate]. Qed.
+
+(* holder classes: a first-level child with an XSD datatype as xsi:type *)
+Lemma holder_xsi_primitive_refuted :
+  exists t, g_wf [] t && guard_any [] t && guard_write [] t = true /\ g_first_level [] t = false /\
+            roundtrip_spec full_oracle [] [] t = expect t /\
+            holder_roundtrip cfg_single full_oracle t <> expect_root t /\
+            holder_roundtrip cfg_list full_oracle t <> expect_root t /\
+            holder_roundtrip cfg_mixed full_oracle t <> expect_root t.
+Proof.
+  exists w_prim.
+  split; [vm_compute; reflexivity|]. split; [vm_compute; reflexivity|]. split; [vm_compute; reflexivity|].
+  split; [vm_compute; discriminate|]. split; vm_compute; discriminate.
+Qed.
+
+Lemma holder_xsi_primitive_choice_refuted :
+  exists t, g_wf [] t && guard_any [] t && guard_write [] t = true /\
+            holder_roundtrip cfg_choice full_oracle t <> expect_root t.
+Proof. exists w_prim_one. split; [vm_compute; reflexivity | vm_compute; discriminate]. Qed.
+
+Lemma holder_xsi_primitive_child_refuted :
+  exists t, g_wf [] t && guard_any [] t && guard_write [] t = true /\
+            roundtrip_spec full_oracle [] [] t = expect t /\
+            wild_parse cfg_list (pump full_oracle [] [] t) = Err EContext.
+Proof. exists w_prim_child. split; [vm_compute; reflexivity | split; vm_compute; reflexivity]. Qed.
+
+(* ... and there the TreeParser and the wildcard field do not build the same tree *)
+Lemma tree_parser_ne_wildcard_refuted :
+  exists rd k v w,
+    tree_parse (pump full_oracle (rd ++ []) [O] k) = Some v /\
+    wild_parse cfg_single (pump full_oracle [] [] (INode [82] [] rd [] [k] [])) = Ok (mkRobj [] (WOne w)) /\
+    v <> w.
+Proof.
+  exists (i_nsd w_prim_one), (hd w_cut (i_kids w_prim_one)).
+  eexists. eexists. split; [vm_compute; reflexivity | split; [vm_compute; reflexivity | discriminate]].
+Qed.
+
+(* ---- the guards are satisfiable by non-trivial documents ------------------------------------ *)
+Example guards_nonvacuous :
+  g_wf [] w_ok && guard_any [] w_ok && guard_write [] w_ok = true /\
+  roundtrip_written full_oracle [] [] w_ok = expect w_ok.
+Proof. split; vm_compute; reflexivity. Qed.
